@@ -26,7 +26,8 @@ type PropConfig struct {
 	Bounded     []string `json:"bounded_standins"`
 	// Only obligations whose name matches one of these (regexps) belong to the property; empty = all
 	// obligations of the listed functions.
-	Select []string `json:"select"`
+	Select  []string `json:"select"`
+	Exclude []string `json:"exclude"`
 }
 
 type KnownFinding struct {
@@ -86,9 +87,9 @@ func runCheck(prog *Program, verifDir string, propID string, tier string, seed i
 	lock := LockFile{Named: map[string]map[string]string{}, Classes: map[string][]string{}}
 	loadJSON(filepath.Join(verifDir, "obligations.lock"), &lock)
 
-	timeout := 10 * time.Second
+	timeout := 60 * time.Second
 	if tier == "thorough" {
-		timeout = 60 * time.Second
+		timeout = 180 * time.Second
 	}
 	prog.lockTrack = pc.LockTrack
 	workdir := filepath.Join(verifDir, ".work", propID)
@@ -125,7 +126,16 @@ func runCheck(prog *Program, verifDir string, propID string, tier string, seed i
 	for _, s := range pc.Select {
 		sels = append(sels, regexp.MustCompile(s))
 	}
+	var excls []*regexp.Regexp
+	for _, s := range pc.Exclude {
+		excls = append(excls, regexp.MustCompile(s))
+	}
 	inProp := func(o *Obligation) bool {
+		for _, re := range excls {
+			if re.MatchString(o.Name) {
+				return false
+			}
+		}
 		if len(sels) == 0 {
 			return true
 		}
@@ -461,7 +471,7 @@ func writeEvidence(verifDir string, pc *PropConfig, tier string, seed int64, res
 			continue
 		}
 		s := sample{Obligation: v.o.Name, Kind: v.o.Kind, Position: v.o.Pos, Status: v.status, Solver: v.o.Res.Solver, TimeS: v.o.Res.TimeS, Desc: v.o.Desc}
-		if vc := vcOf[v.o]; vc != nil && v.o.Goal != "true" {
+		if vc := vcOf[v.o]; vc != nil && v.o.Goal != "true" && len(v.o.Parts) == 0 {
 			q := vc.query(v.o, false)
 			s.VCSize = len(q)
 			s.VCHash = fmt.Sprintf("%x", sha256.Sum256([]byte(q)))[:16]
